@@ -18,6 +18,8 @@ type rreq struct {
 	Query  string         `json:"query,omitempty"`
 	Fields map[string]any `json:"fields,omitempty"` // JSON body (nil = no body)
 	Raw    *string        `json:"raw_body,omitempty"`
+	// Headers are request header fields sent besides Host / Content-Type / Content-Length ("" = sent with an empty value)
+	Headers map[string]string `json:"headers,omitempty"`
 }
 
 func (q rreq) uri() string {
@@ -159,9 +161,13 @@ func restExpect(q rreq, now0, now1 int64) rexp {
 		if s > 10 {
 			return rexp{Fields: map[string]any{"valid": false}}
 		}
+		// the window below counter 0: the library's HOTP validator cuts it at 0 (C03); its TOTP validator computes
+		// step-s ... step+s modulo 2^64, so for an instant in the first s steps the codes of counters 2^64-s ... belong
+		// to the window (C04 leaves those instants out; the service has to give the LIBRARY's verdict there too)
+		wrap := q.Path == "/totp/validate"
 		verdict := func(center uint64) bool {
 			lo := uint64(0)
-			if center >= s {
+			if center >= s || wrap {
 				lo = center - s
 			}
 			for x := lo; ; x++ {
